@@ -88,6 +88,36 @@ fn check_f64(bits: u64) {
     }
 }
 
+fn hex(v: &[u8]) -> String { v.iter().map(|b| format!("{:02x}", b)).collect() }
+
+fn check_utf8(v: &[u8]) {
+    use lean_string::LeanString;
+    let a = LeanString::from_utf8(v).map(|s| s.as_str().to_string()).ok();
+    let b = String::from_utf8(v.to_vec()).ok();
+    if a != b {
+        report(format!("MISMATCH from_utf8 {} got={:?} want={:?}", hex(v), a, b));
+    }
+    let al = LeanString::from_utf8_lossy(v);
+    let bl = String::from_utf8_lossy(v);
+    if al.as_str() != &*bl {
+        report(format!("MISMATCH from_utf8_lossy {} got={:?} want={:?}", hex(v), al.as_str(), bl));
+    }
+}
+
+fn check_utf16(v: &[u16]) {
+    use lean_string::LeanString;
+    let a = LeanString::from_utf16(v).map(|s| s.as_str().to_string()).ok();
+    let b = String::from_utf16(v).ok();
+    if a != b {
+        report(format!("MISMATCH from_utf16 {:04x?} got={:?} want={:?}", v, a, b));
+    }
+    let al = LeanString::from_utf16_lossy(v);
+    let bl = String::from_utf16_lossy(v);
+    if al.as_str() != bl.as_str() {
+        report(format!("MISMATCH from_utf16_lossy {:04x?} got={:?} want={:?}", v, al.as_str(), bl));
+    }
+}
+
 fn main() {
     let a: Vec<String> = std::env::args().collect();
     if a.len() < 2 {
@@ -143,8 +173,71 @@ fn main() {
             });
             checked += count;
         }
+        "utf8" => {
+            // all byte sequences up to `maxlen` over one representative of every UTF-8 byte class
+            let maxlen = a[2].parse::<usize>().expect("maxlen");
+            let dump = a.get(3).map(|s| s == "dump").unwrap_or(false);
+            const ALPHA: [u8; 20] = [0x00, 0x41, 0x7f, 0x80, 0x8f, 0x90, 0x9f, 0xa0, 0xbf, 0xc0, 0xc2, 0xdf, 0xe0, 0xe1, 0xed, 0xef,
+                                     0xf0, 0xf1, 0xf4, 0xf5];
+            let mut total = 0u64;
+            let mut out = String::new();
+            for len in 0..=maxlen {
+                let n = (ALPHA.len() as u64).pow(len as u32);
+                for code in 0..n {
+                    let mut v = Vec::with_capacity(len);
+                    let mut c = code;
+                    for _ in 0..len { v.push(ALPHA[(c % 20) as usize]); c /= 20; }
+                    check_utf8(&v);
+                    if dump {
+                        use std::fmt::Write;
+                        for b in &v { write!(out, "{:02x}", b).unwrap(); }
+                        if v.is_empty() { out.push('-'); }
+                        out.push(' ');
+                        out.push(if std::str::from_utf8(&v).is_ok() { '1' } else { '0' });
+                        out.push('\n');
+                    }
+                    total += 1;
+                }
+            }
+            // long inputs crossing the inline limit: valid text with damage sprinkled in
+            let mut st = 0x1234_5678u64;
+            for _ in 0..20000 {
+                let len = (splitmix(&mut st) % 40) as usize;
+                let mut v: Vec<u8> = "aé€𝄞 zß水".bytes().cycle().take(len).collect();
+                for _ in 0..(splitmix(&mut st) % 4) {
+                    if !v.is_empty() { let i = (splitmix(&mut st) as usize) % v.len(); v[i] = ALPHA[(splitmix(&mut st) % 20) as usize]; }
+                }
+                check_utf8(&v);
+                total += 1;
+            }
+            print!("{out}");
+            checked = total;
+        }
+        "utf16" => {
+            let maxlen = a[2].parse::<usize>().expect("maxlen");
+            const ALPHA: [u16; 8] = [0x0041, 0x00e9, 0xd7ff, 0xd800, 0xdbff, 0xdc00, 0xdfff, 0xe000];
+            let mut total = 0u64;
+            for len in 0..=maxlen {
+                let n = (ALPHA.len() as u64).pow(len as u32);
+                for code in 0..n {
+                    let mut v = Vec::with_capacity(len);
+                    let mut c = code;
+                    for _ in 0..len { v.push(ALPHA[(c % 8) as usize]); c /= 8; }
+                    check_utf16(&v);
+                    total += 1;
+                }
+            }
+            let mut st = 0x9876_5432u64;
+            for _ in 0..20000 {
+                let len = (splitmix(&mut st) % 30) as usize;
+                let v: Vec<u16> = (0..len).map(|_| if splitmix(&mut st) % 5 == 0 { ALPHA[(splitmix(&mut st) % 8) as usize] } else { 0x61 + (splitmix(&mut st) % 26) as u16 }).collect();
+                check_utf16(&v);
+                total += 1;
+            }
+            checked = total;
+        }
         _ => {
-            eprintln!("usage: sweep int|f32|f64 ...");
+            eprintln!("usage: sweep int|f32|f64|utf8|utf16 ...");
             std::process::exit(2);
         }
     }
